@@ -14,7 +14,8 @@ _GEN_TIE = {
     "C12": ("BV.Props.C16Gen", "parse_window_size", "parse_window_size_generated, parse_window_size_generated_of_ok"),
     "C04": ("BV.Props.C04Gen", "BrotliStoreSyncMetaBlock, BrotliWriteEmptyLastMetaBlock (bit-writer functions: the generated value is the ordered list of BrotliWriteBits / JumpToByteBoundary calls)",
             "store_sync_meta_block_generated, write_empty_last_meta_block_generated: the generated operation list run on ANY writer (runOps, BV/Lemmas/RsWriter.lean) equals the header model"),
-    "C15": ("BV.Props.C15Gen", "EncodeWindowBits", "encode_window_bits_generated (every lgwin < 64, both header forms), encode_window_bits_ignores_outs"),
+    "C15": ("BV.Props.C15Gen", "EncodeWindowBits, SanitizeParams (+ check_large_window_ok), ComputeLgBlock, ComputeRbBits, update_size_hint (+ unprocessed_input_size), encode_base_128, BrotliWriteMetadataMetaBlock (BrotliEncoderParams / BrotliEncoderStateStruct as Lean structures of their supported fields)",
+            "encode_window_bits_generated (every lgwin < 64, both header forms), encode_window_bits_ignores_outs; sanitize_params_generated (EVERY parameter structure: the structure after the call is the one before with exactly quality, lgwin, appendable replaced by the model's sanitizeParams values — no other field is touched); compute_lg_block_generated (every structure); compute_rb_bits_generated (whenever 1 + max(lgwin, lgblock) fits an i32); update_size_hint_generated (every encoder state and available_in: the state afterwards is the state before with params.size_hint := the model's updateSizeHint of (size_hint, input_pos_ - last_processed_pos_ wrapping, available_in)); encode_base_128_generated (every u64: (byte count, bytes followed by zeros up to 10) of the model's encodeBase128) and encode_base_128_ok_generated (no index / overflow panic, every value); write_metadata_meta_block_generated (every parameter structure with a u64 size hint: the generated BrotliWriteBits / JumpToByteBoundary list of BrotliWriteMetadataMetaBlock, run on ANY writer, equals the model's writeMetadataMetaBlock — magic bytes by concatenation mode, VERSION, base-128 size hint)"),
 }
 # Further translated functions (session 3: loops, arrays, structs by value, enums, `_ok` companions).
 # property -> [(Props module, generated file, functions, theorems)]
@@ -50,3 +51,9 @@ for _pid, _l in _GEN_TIE_LIST.items():
             ". A change of a body changes the generated definition and the kernel re-checks the equation.")
     if _TB not in PROPS[_pid].get("trusted_base", []):
         PROPS[_pid]["trusted_base"] = [t for t in PROPS[_pid].get("trusted_base", []) if not t.startswith("tools/rs2lean.py")] + [_TB]
+
+# C15: what the translator tie now covers (the sentence of C15.py predates it)
+if "C15" in PROPS:
+    PROPS["C15"]["level_note"] = PROPS["C15"]["level_note"].replace(
+        "model = code is checked on the full grid on every run, not proved.",
+        "model = code is checked on the full grid on every run; in addition SanitizeParams, ComputeLgBlock, ComputeRbBits, EncodeWindowBits, update_size_hint, encode_base_128 and BrotliWriteMetadataMetaBlock are PROVED equal to the Lean definitions generated from their current Rust text by tools/rs2lean.py (BV.Props.C15Gen; trusted: the translator), while ensure_initialized, the head of encode_data, the q0/q1 dispatch and store_uncompressed_meta_block remain tied by the grid only.")
